@@ -70,6 +70,9 @@ fn scripts(quick: bool) -> Vec<(Vec<(usize, Step)>, usize)> {
     out.push((sequential(&[vec![link("v"), cmd("v", "41"), cmd("v", "42"), link("v"), cmd("v", "43")]]), 1));
     out.push((sequential(&[vec![sync("v"), link("v"), cmd("v", "44"), link("v")]]), 1));
     out.push((vec![(0, link("v")), (1, link("v")), (1, cmd("v", "45")), (0, link("v")), (1, cmd("v", "46")), (0, sync("v"))], 2));
+    // a command the lane cannot decode (text for an i32 lane), in the middle of ordinary traffic
+    out.push((sequential(&[vec![link("v"), cmd("v", "1"), cmd("v", "abc"), cmd("v", "2"), sync("v")]]), 1));
+    out.push((vec![(1, link("v")), (0, cmd("v", "@bogus")), (0, cmd("v", "51")), (1, sync("v"))], 2));
     // values whose encodings differ in length
     out.push((sequential(&[vec![link("v"), cmd("v", "1"), cmd("v", "22222222"), cmd("v", "3"), sync("v"), cmd("v", "44444")]]), 1));
     // three remotes: observer, syncer, writer
